@@ -6,10 +6,10 @@ CONSTANTS
   Data = {1}
   MaxOps = 6
   GenHist = TRUE
-  Fix16 = FALSE
+  Fix16 = TRUE
   Fix17 = FALSE
   Fix17b = FALSE
-  Fix18 = FALSE
+  Fix18 = TRUE
 INIT Init
 NEXT Next
 VIEW View
